@@ -5,7 +5,7 @@ import os, sys
 sys.path.insert(0, os.path.join(os.path.dirname(__file__), '..', 'engine'))
 from run import Q, Unit
 
-UNITS = [Unit('c17_optional'), Unit('c17_expected'), Unit('c17_variant'), Unit('c17_box'), Unit('c17_tuple'), Unit('c17_cat'), Unit('c17_owner')]
+UNITS = [Unit('c17_optional'), Unit('c17_expected'), Unit('c17_variant'), Unit('c17_variant2'), Unit('c17_box'), Unit('c17_tuple'), Unit('c17_cat'), Unit('c17_owner')]
 UNITS_C16 = UNITS
 TRK = [(r'^vp_(tracked_addr|release)$', 5)]                            # registry loops of vp_track.h: VP_MAXBLK=2 blocks, 4 regions
 TRKA = [(r'^vp_(tracked_addr|release)$', 9), (r'^blk_size$', 9)]      # owners: VP_MAXBLK=8 (at most one allocation per operation + adopt)
@@ -22,6 +22,10 @@ HOLDERS = [
     ('variant', 'c17_variant', 'c17_variant.c', 'harness', [3], [4, 5],
      'default (empty) / from A / from B / from an lvalue A construction, copy and move construction from empty/A/B, copy and move assignment over the (empty,A,B) x (empty,A,B) '
      'combinations, self copy/move assignment, assignment of an A / a B value, assignment of an empty variant, emplace<A>/emplace<B>/emplace<B>() over empty/A/B, destruction'),
+    ('variant_mixed', 'c17_variant2', 'c17_variant2.c', 'harness', [3], [4, 5],
+     'variant<int, tracked, pod> (trivial, non-trivial and POD alternatives + empty): default / from int / from tracked / from pod construction, copy and move construction from each state, '
+     'copy and move assignment over all 4 x 4 (destination, source) combinations, self copy/move assignment, assignment of an int / tracked / pod / empty variant over each state, '
+     'emplace<int> / emplace<tracked> / emplace<pod> over each state (trivial over non-trivial and vice versa), destruction of each state'),
     ('manual_box', 'c17_box', 'c17_box.c', 'harness', [5], [7],
      'construction, initialize(int)/initialize()/initialize(const T&)/initialize(T&&), construct_with(f), destruct(), re-initialization, assignment through operator*, destruction of an uninitialized box'),
     ('tuple', 'c17_tuple', 'c17_tuple.c', 'harness', [3], [4, 5],
@@ -102,6 +106,7 @@ def validation_queries(tier):
             Q('expected.validate', 'c17_expected', 'c17_expected.c', 'harness', defs={'K': 6}),
             Q('expected.void.validate', 'c17_expected', 'c17_expected.c', 'harness_void'),
             Q('variant.validate', 'c17_variant', 'c17_variant.c', 'harness', defs={'K': 6}),
+            Q('variant_mixed.validate', 'c17_variant2', 'c17_variant2.c', 'harness', defs={'K': 6}),
             Q('manual_box.validate', 'c17_box', 'c17_box.c', 'harness', defs={'K': 6}),
             Q('eternal.validate', 'c17_box', 'c17_box.c', 'harness_eternal'),
             Q('tuple.validate', 'c17_tuple', 'c17_tuple.c', 'harness', defs={'K': 6}),
@@ -116,7 +121,7 @@ VALIDATE_VECTORS = 80
 LEVEL = 'model_checking'
 TECHNIQUE = ('CBMC bounded model checking of the clang-lowered real headers: bounded histories of solver-chosen operations over two holder objects against a reference model '
              '(state, value, moved-from), with an element type that reports its special member functions (lifetime registry) and a tracking allocator (block registry)')
-FUNCTION_PATTERNS = [r'frg::', r'^(opt|oi|exp|xv|var|box|et|tup|tref|cat|up|um|al)_']
+FUNCTION_PATTERNS = [r'frg::', r'^(opt|oi|exp|xv|var|v2|box|et|tup|tref|cat|up|um|al)_']
 ASSUMPTIONS = [
     'callers respect the documented preconditions: operator*/->/value()/get<X>()/error()/unwrap()/apply() only in the matching state, initialize()/construct_with() only on an uninitialized manual_box, destruct() only on an initialized one, '
     'expected(E) only with a non-default E; every FRG_ASSERT reached inside these preconditions is a violation',
